@@ -13,6 +13,9 @@
 
 use serde::{Deserialize, Serialize};
 
+#[path = "stdfn.rs"]
+mod stdfn;
+
 use super::decl::{DTy, LocKey, VarSpec};
 use crate::engine::tape::Reader;
 use crate::stgen::ast::Elem;
@@ -38,6 +41,9 @@ pub struct IoIn {
     /// Restrict raw values to this inclusive range (two's complement of the width) when the
     /// bound variable is a subrange.
     pub range: Option<(i64, i64)>,
+    /// When not empty: the written value is one of these (boundary picks).
+    #[serde(default)]
+    pub picks: Vec<i64>,
 }
 
 #[derive(Clone, Debug, PartialEq, Serialize, Deserialize)]
@@ -233,6 +239,13 @@ const TYPES: &str = "TYPE
     b : SINT;
     r : REAL;
   END_STRUCT;
+  XSf : STRUCT
+    w : WSTRING[40];
+    s : STRING[40];
+    b : WORD;
+    t : TIME;
+    i : SINT;
+  END_STRUCT;
   XGain : REAL;
   XTicks : UDINT;
   XSd : STRUCT
@@ -245,16 +258,21 @@ const TYPES: &str = "TYPE
 END_TYPE
 ";
 
-struct B {
+pub(super) struct B {
     decls: Vec<String>,
     retain_decls: Vec<String>,
     ext_decls: Vec<String>,
     stmts: Vec<String>,
+    /// Statements printed after all others (they can fault for some argument values).
+    pub(super) late: Vec<String>,
     vars: Vec<VarSpec>,
 }
 
 impl B {
-    fn var(&mut self, name: &str, text: &str, ty: DTy, init: Option<&str>) {
+    pub(super) fn has(&self, name: &str) -> bool {
+        self.vars.iter().any(|v| v.name == name)
+    }
+    pub(super) fn var(&mut self, name: &str, text: &str, ty: DTy, init: Option<&str>) {
         let i = init.map(|s| format!(" := {s}")).unwrap_or_default();
         self.decls.push(format!("{name} : {text}{i};"));
         self.vars.push(VarSpec {
@@ -263,7 +281,7 @@ impl B {
             retain: false,
         });
     }
-    fn at(&mut self, name: &str, addr: &str, text: &str, ty: DTy) {
+    pub(super) fn at(&mut self, name: &str, addr: &str, text: &str, ty: DTy) {
         self.decls.push(format!("{name} AT {addr} : {text};"));
         self.vars.push(VarSpec {
             name: name.into(),
@@ -280,7 +298,7 @@ impl B {
             retain: true,
         });
     }
-    fn s(&mut self, text: impl Into<String>) {
+    pub(super) fn s(&mut self, text: impl Into<String>) {
         self.stmts.push(text.into());
     }
 }
@@ -300,13 +318,20 @@ fn int_elems() -> [(Elem, &'static str); 8] {
 
 /// Generate the extension unit. `own_globals`: the unit may declare globals (a VAR_GLOBAL
 /// block is printed by the caller inside a CONFIGURATION).
-pub fn generate(r: &mut Reader, implicit: bool, open: Open, own_globals: bool) -> Ext {
+pub fn generate(
+    r: &mut Reader,
+    rs: &mut Reader,
+    implicit: bool,
+    open: Open,
+    own_globals: bool,
+) -> Ext {
     let mut x = Ext::default();
     let mut b = B {
         decls: vec![],
         retain_decls: vec![],
         ext_decls: vec![],
         stmts: vec![],
+        late: vec![],
         vars: vec![],
     };
     let pk = |v: &str| -> LocKey { ("XExt".to_string(), v.to_string(), String::new()) };
@@ -359,8 +384,7 @@ pub fn generate(r: &mut Reader, implicit: bool, open: Open, own_globals: bool) -
         x.inputs.push(IoIn {
             addr: ia,
             size: t.size,
-            range: t.range,
-        });
+            range: t.range, picks: vec![], });
         x.labels.push(format!("io:{}", t.text));
     }
     if open.enum_at {
@@ -373,8 +397,7 @@ pub fn generate(r: &mut Reader, implicit: bool, open: Open, own_globals: bool) -
         x.inputs.push(IoIn {
             addr: "%IW300".into(),
             size: 'W',
-            range: Some((0, 2)),
-        });
+            range: Some((0, 2)), picks: vec![], });
     }
     if open.f25 {
         x.excluded
@@ -408,19 +431,16 @@ pub fn generate(r: &mut Reader, implicit: bool, open: Open, own_globals: bool) -
             x.inputs.push(IoIn {
                 addr: a.into(),
                 size: 'W',
-                range: None,
-            });
+                range: None, picks: vec![], });
         }
         x.inputs.push(IoIn {
             addr: "%IB222".into(),
             size: 'B',
-            range: None,
-        });
+            range: None, picks: vec![], });
         x.inputs.push(IoIn {
             addr: "%ID223".into(),
             size: 'D',
-            range: None,
-        });
+            range: None, picks: vec![], });
         x.labels.push("io:composite".into());
     }
     if r.chance(1, 3) {
@@ -475,13 +495,11 @@ END_FUNCTION_BLOCK
         x.inputs.push(IoIn {
             addr: "%IW240".into(),
             size: 'W',
-            range: None,
-        });
+            range: None, picks: vec![], });
         x.inputs.push(IoIn {
             addr: "%IB244".into(),
             size: 'B',
-            range: None,
-        });
+            range: None, picks: vec![], });
         x.labels.push("io:fb-member".into());
     }
 
@@ -1082,8 +1100,7 @@ END_FUNCTION_BLOCK
         x.inputs.push(IoIn {
             addr: "%IW260".into(),
             size: 'W',
-            range: None,
-        });
+            range: None, picks: vec![], });
         b.ext_decls.push("xg_lint : LINT;".into());
         b.ext_decls.push("xg_bool : BOOL;".into());
         b.ext_decls.push("xg_in : INT;".into());
@@ -1258,6 +1275,10 @@ END_FUNCTION_BLOCK
             .push("F8 implicit conversions at assignment / binding (clean mode: every case)".into());
     }
 
+    // ---------------------------------------------------------------- standard functions
+    // (own tape: the block does not depend on how much the rest of the unit consumed)
+    stdfn::generate(rs, &mut b, &mut x);
+
     // ---------------------------------------------------------------- print XExt
     let mut p = String::new();
     p.push_str("PROGRAM XExt\n");
@@ -1280,7 +1301,7 @@ END_FUNCTION_BLOCK
         }
         p.push_str("END_VAR\n");
     }
-    for s in &b.stmts {
+    for s in b.stmts.iter().chain(b.late.iter()) {
         p.push_str(&format!("  {s}\n"));
     }
     p.push_str("END_PROGRAM\n");
